@@ -38,7 +38,7 @@ def variant_strategy(i, n, versioned, shallow_ok=True):
     callees = list(range(i + 1, n - 1))
     opts = [st.fixed_dictionaries({"k": st.just("arith"), "mul": st.integers(1, 3), "add": st.integers(0, 4)}),
             st.fixed_dictionaries({"k": st.just("raise_if"), "mod": st.integers(2, 4), "add": st.integers(0, 3)}),
-            st.fixed_dictionaries({"k": st.just("readfile"), "callee": st.just(n - 1), "file": st.integers(0, 1)})]
+            st.fixed_dictionaries({"k": st.just("readfile"), "callee": st.just(n - 1), "file": st.integers(0, 1), "kw": st.booleans()})]
     if callees:
         opts += [st.fixed_dictionaries({"k": st.just("call"), "callee": st.sampled_from(callees), "shift": st.integers(0, 2), "add": st.integers(0, 3)}),
                  st.fixed_dictionaries({"k": st.just("call"), "callee": st.sampled_from(callees), "shift": st.integers(0, 2), "add": st.integers(0, 3)}),
@@ -105,7 +105,7 @@ def cases(draw, shallow_prob=None):
         # file focus: some task reads input file 0 and the file is rewritten between two runs
         i = draw(st.integers(0, n - 2))
         keep = {k: v for k, v in init[i].items() if k in ("ver", "opts")}
-        init[i] = {**keep, "k": "readfile", "callee": n - 1, "file": 0}
+        init[i] = {**keep, "k": "readfile", "callee": n - 1, "file": 0, "kw": draw(st.booleans())}
         if i > 0:
             keep0 = {k: v for k, v in init[0].items() if k in ("ver", "opts")}
             init[0] = {**keep0, "k": "call", "callee": i, "shift": 0, "add": 1}
